@@ -59,16 +59,18 @@ type connState struct {
 }
 
 type world struct {
-	l        *fixture.L2
-	code     string // dashed right code
-	ctrl     *refctl.Controller
-	ctrl2    *refctl.Controller // a second identity the same peer may present
-	conns    []*connState
-	recorded [][]byte // genuine M5 bodies seen so far (for replay)
-	recM3    [][]byte // M3 bodies of accepted verify-right messages (an eavesdropper sees them in plaintext)
-	recM3On  []int    // the connection each of them was sent on
-	entropy  []byte
-	unproved *refctl.SRPClient // secret of a right-code verify whose proof was sent damaged
+	l          *fixture.L2
+	code       string // dashed right code
+	ctrl       *refctl.Controller
+	ctrl2      *refctl.Controller // a second identity the same peer may present
+	conns      []*connState
+	recorded   [][]byte             // genuine M5 bodies seen so far (for replay)
+	recordedK  [][]byte             // the session secret each of them was built under
+	recordedBy []*refctl.Controller // and the identity it carries
+	recM3      [][]byte             // M3 bodies of accepted verify-right messages (an eavesdropper sees them in plaintext)
+	recM3On    []int                // the connection each of them was sent on
+	entropy    []byte
+	unproved   *refctl.SRPClient // secret of a right-code verify whose proof was sent damaged
 }
 
 func wrongCode(code string) string {
@@ -260,7 +262,15 @@ func (w *world) send(m msg) (label string, err error) {
 		body = refctl.EncodeTLV8([]refctl.Item{{refctl.TagState, []byte{5}}})
 	case "exchange-replayed":
 		if len(w.recorded) > 0 {
-			body = w.recorded[m.Arg%len(w.recorded)]
+			j := m.Arg % len(w.recorded)
+			body = w.recorded[j]
+			// hc keeps salt and B for the lifetime of a connection: a controller that proves itself again with the same
+			// ephemeral secret arrives at the same session key, and the recorded message is then exactly what a genuine
+			// key exchange would send now - storing it is right
+			if cs.proved && cs.srp != nil && cs.srp.K != nil && bytes.Equal(w.recordedK[j], cs.srp.K) {
+				expectStore = true
+				used = w.recordedBy[j]
+			}
 		} else {
 			k := h512([]byte{3})
 			body = m5(w.ctrl, k, nil, k)
@@ -293,6 +303,8 @@ func (w *world) send(m msg) (label string, err error) {
 	}
 	if (m.Kind == "exchange-genuine" || m.Kind == "exchange-second-identity") && expectStore {
 		w.recorded = append(w.recorded, body)
+		w.recordedK = append(w.recordedK, append([]byte{}, cs.srp.K...))
+		w.recordedBy = append(w.recordedBy, used)
 	}
 	label = m.Kind
 	resp, derr := cs.c.Do("POST", "/pair-setup", refctl.ContentTLV8, body)
@@ -489,6 +501,19 @@ func TestC02Prop(t *testing.T) {
 		n := rapid.IntRange(1, 12).Draw(t, "nmsgs")
 		phase := make([]int, nconns)
 		var ms []msg
+		// now and then the history starts with a burst of failed attempts on one connection (attempt counters and
+		// lock-outs change behaviour only after the n-th failure), followed by one more attempt of the same kind
+		// and a key exchange that needs no secret
+		burst := rapid.OneOf(rapid.Just(0), rapid.Just(0), rapid.Just(0), rapid.Just(0), rapid.IntRange(3, 15), rapid.IntRange(90, 130)).Draw(t, "burst")
+		if burst > 0 {
+			bc := rapid.IntRange(0, nconns-1).Draw(t, "burst-conn")
+			bk := rapid.SampledFrom([]string{"verify-A-zero", "verify-A-zero", "verify-A-N", "verify-wrong-code", "verify-random-proof", "verify-no-proof"}).Draw(t, "burst-kind")
+			for i := 0; i <= burst; i++ {
+				ms = append(ms, msg{bc, "start", i}, msg{bc, bk, i})
+			}
+			ms = append(ms, msg{bc, rapid.SampledFrom([]string{"exchange-zero-key", "exchange-zero-key", "exchange-empty-secret", "exchange-neutral-key-zero-key"}).Draw(t, "burst-exchange"), 0})
+			phase[bc] = 0
+		}
 		for i := 0; i < n; i++ {
 			c := rapid.IntRange(0, nconns-1).Draw(t, "conn")
 			// state-biased choice: prefer the message group that follows the connection's phase
@@ -537,6 +562,12 @@ func TestC02Prop(t *testing.T) {
 				}
 			}
 		}
+		if burst >= 10 {
+			cls = append(cls, "burst>=10-failed-attempts")
+		}
+		if burst >= 100 {
+			cls = append(cls, "burst>=100-failed-attempts")
+		}
 		if nconns == 2 {
 			cls = append(cls, "two-connections")
 		}
@@ -566,6 +597,14 @@ func dedup(s []string) []string {
 }
 
 // TestC02Regress: recorded findings and the honest run.
+func burstCase(n int) []msg {
+	var ms []msg
+	for i := 0; i < n; i++ {
+		ms = append(ms, msg{0, "start", i}, msg{0, "verify-A-zero", i})
+	}
+	return append(ms, msg{0, "exchange-zero-key", 0})
+}
+
 func TestC02Regress(t *testing.T) {
 	seed := bytes.Repeat([]byte{5}, 32)
 	cases := []struct {
@@ -586,6 +625,8 @@ func TestC02Regress(t *testing.T) {
 		{"wrong code, then a key exchange carrying the Ed25519 neutral element under the all-zero key", []msg{{0, "start", 0}, {0, "verify-wrong-code", 0}, {0, "exchange-neutral-key-zero-key", 0}}},
 		{"the same invalid A twice on one connection, the second time with a proof over public values", []msg{{0, "start", 0}, {0, "verify-A-N", 0}, {0, "start", 0}, {0, "verify-A-N-public-proof", 0}, {0, "exchange-empty-secret", 0}}},
 		{"the same invalid A twice (K = H of nothing)", []msg{{0, "start", 0}, {0, "verify-A-N", 0}, {0, "start", 0}, {0, "verify-A-N-public-proof", 1}, {0, "exchange-empty-secret", 1}}},
+		{"12 failed attempts with A=0 on one connection, then the zero-key key exchange", burstCase(12)},
+		{"102 failed attempts with A=0 on one connection, then the zero-key key exchange", burstCase(102)},
 		{"genuine M5 of connection 0 replayed on connection 1 after its own failed verify", []msg{{0, "start", 0}, {0, "verify-right", 0}, {0, "exchange-genuine", 0}, {1, "start", 0}, {1, "verify-A-zero", 0}, {1, "exchange-replayed", 0}}},
 	}
 	for i, c := range cases {
